@@ -193,6 +193,29 @@ func (r *Run) Violation(sig map[string]string, what string, replay any) {
 	r.res.Violations = append(r.res.Violations, Violation{Sig: sig, What: what, Replay: replay})
 }
 
+// Demote turns every recorded violation whose signature has kind==k into an inconclusive
+// entry (used when a run finds out afterwards that such reports were caused by machine load).
+func (r *Run) Demote(k, reason string) {
+	r.mu.Lock()
+	defer r.mu.Unlock()
+	var keep []Violation
+	n := 0
+	for _, v := range r.res.Violations {
+		if v.Sig["kind"] == k {
+			n++
+			continue
+		}
+		keep = append(keep, v)
+	}
+	if n > 0 {
+		r.res.Violations = keep
+		if keep == nil {
+			r.res.Violations = []Violation{}
+		}
+		r.res.Inconclusive = append(r.res.Inconclusive, fmt.Sprintf("%d report(s) of kind %s demoted: %s", n, k, reason))
+	}
+}
+
 func (r *Run) Inconclusive(reason string) {
 	r.mu.Lock()
 	r.res.Inconclusive = append(r.res.Inconclusive, reason)
